@@ -71,6 +71,10 @@ class DataFrameSchemaBackend(PolarsSchemaBackend):
             except SchemaErrors as exc:
                 error_handler.collect_errors(exc.schema_errors)
 
+        # We may have modified columns, for example by
+        # add_missing_columns, so regenerate column info
+        column_info = self.collect_column_info(check_obj, schema)
+
         components = self.collect_schema_components(
             check_obj,
             schema,
@@ -320,6 +324,34 @@ class DataFrameSchemaBackend(PolarsSchemaBackend):
                     reason_code=SchemaErrorReason.ADD_MISSING_COLUMN_NO_DEFAULT,
                 )
 
+        # Ascertain order in which missing columns should be inserted into
+        # the dataframe
+        lf_columns = get_lazyframe_column_names(check_obj)
+        schema_cols_dict = {
+            col_name: None
+            for col_name, col_schema in schema.columns.items()
+            if col_name in lf_columns or col_schema.required
+        }
+        ordered_cols: List[Any] = []
+        for col_name in lf_columns:
+            pop_cols = []
+            for next_col_name in iter(schema_cols_dict):
+                if (
+                    next_col_name in column_info.absent_column_names
+                    and next_col_name not in ordered_cols
+                ):
+                    ordered_cols.append(next_col_name)
+                    pop_cols.append(next_col_name)
+                else:
+                    for pop_col in pop_cols:
+                        schema_cols_dict.pop(pop_col)
+                    break
+            ordered_cols.append(col_name)
+            schema_cols_dict.pop(col_name, None)
+        for col_name in column_info.absent_column_names:
+            if col_name not in ordered_cols:
+                ordered_cols.append(col_name)
+
         # Create companion dataframe of default values for missing columns
         missing_cols_schema = {
             k: v
@@ -339,8 +371,10 @@ class DataFrameSchemaBackend(PolarsSchemaBackend):
             }
         ).cast({k: v.dtype.type for k, v in missing_cols_schema.items()})
 
-        # Set column order
-        check_obj = check_obj.select([*schema.columns])
+        # Set column order: insert the missing columns at the position the
+        # schema declares for them without dropping or reordering the columns
+        # that are already in the dataframe.
+        check_obj = check_obj.select(ordered_cols)
         return check_obj
 
     def strict_filter_columns(
